@@ -33,6 +33,7 @@ type sworld struct {
 	want    map[string]bool // justified permissions in the current group
 	pending []pendingCmd    // commands queued for the target, not yet applied
 	outcome string
+	role    string
 }
 
 type pendingCmd struct {
@@ -43,9 +44,15 @@ type pendingCmd struct {
 
 var targetPerms = map[string][]string{"g": {"present", "message"}, "h": {"present", "message"}}
 
-func swFresh() seqx.World {
-	w, pan := sig.Setup("speaker", "joined", false) // c0 speaker in g; c1 alice (op of g); c2 bob
-	s := &sworld{w: w, pan: pan, in: "g", epoch: 1, want: map[string]bool{}}
+func swFresh() seqx.World { return swFreshAs("speaker")() }
+
+func swFreshAs(role string) func() seqx.World {
+	return func() seqx.World { return swNew(role) }
+}
+
+func swNew(role string) seqx.World {
+	w, pan := sig.Setup(role, "joined", false) // c0 in g; c1 alice (op of g); c2 bob
+	s := &sworld{w: w, pan: pan, in: "g", epoch: 1, want: map[string]bool{}, role: role}
 	for _, p := range w.Clients[0].V.Permissions() {
 		s.want[p] = true
 	}
@@ -109,7 +116,7 @@ func (w *sworld) Apply(x seqx.Op) *core.Violation {
 		w.in = ""
 		w.want = map[string]bool{}
 	case "join":
-		obs = w.w.Send(0, sig.Join(kv[1], "speaker", "p"))
+		obs = w.w.Send(0, sig.Join(kv[1], w.role, "p"))
 		w.in = kv[1]
 		w.epoch++
 		w.want = map[string]bool{}
@@ -185,6 +192,10 @@ func (w *sworld) Apply(x seqx.Op) *core.Violation {
 			if !got[p] {
 				verb = "has lost"
 			}
+			if w.epoch == 1 {
+				return &core.Violation{Signature: "C11/moderation-without-effect/" + p,
+					What: fmt.Sprintf("the target (logged in as %s) never left group g and %s %q, although its credentials and the operator's commands handled so far give %v: a moderation command was acknowledged and announced but did not change what the target may do", w.role, verb, p, keys(w.want))}
+			}
 			return &core.Violation{Signature: "C11/moderation-crosses-groups/" + p,
 				What: fmt.Sprintf("the target is a member of group %s and %s %q there, although its credentials for %s and the commands of that group's operators during this membership give %v: a command issued by an operator of another group was applied to it here", w.in, verb, p, w.in, keys(w.want))}
 		}
@@ -201,6 +212,11 @@ func (w *sworld) Canon() string {
 }
 
 func (w *sworld) Outcome() string { return w.outcome }
+
+// the same with a target whose configured permission list names permissions twice
+func dupConfig() seqx.Config {
+	return seqx.Config{Name: "moderation-vs-group-switch/duplicate-permissions", Fresh: swFreshAs("dupes"), MaxDepth: core.Pick(4, 6), Parallel: 1}
+}
 
 func switchConfig() seqx.Config {
 	return seqx.Config{Name: "moderation-vs-group-switch", Fresh: swFresh, MaxDepth: core.Pick(5, 7), Parallel: 1}
